@@ -170,6 +170,10 @@ def one_case(ctx, prog, spec=None, label="gen"):
         return
 
     c04_logprior.logprior_clause(ctx, model, comp, [c["v"] for c in calls], case)
+    if not pyswarms:
+        import sys
+        import c04_resume
+        c04_resume.resume_clause(ctx, sys.modules[__name__], model, priors, H, prog_asserts, req, cfg, calls, case, spec=(spec or {}).get("resume"))
     analysis = ScriptedAnalysis()
     analysis.wrap = (spec or {}).get("wrap") or rng.choice(["float", "float", "np.float64", "0-d array"])
     case["spec"]["wrap"] = analysis.wrap
